@@ -25,7 +25,9 @@ EXPLANATION = (
     ' (R5) key mapping round trip by scenario evaluation incl. sibling-prefix and doubled-slash keys (C20.R9); (R6) on S3 the root is enforced by _get_s3_key: only the backend, the range reader and the lock providers hold the raw client, and every key they use comes from _get_s3_key / create_lock.'
     ' R2: the canonical paths are compared unaltered (no casefold / lower / replace); R3: os.walk does not follow symlinks, every path handed out passed the escape test.'
     " R2 finds the canonical root by role (a parameterless method / new property whose every return is realpath(self.base_path), evaluated at the time of the check - not an attribute stored at construction) and decides the re-rooting clause by scenario over nine spellings ('/../x', '//x', '/a/../../x' ...): what reaches realpath() is the base joined with the input minus its leading slashes, component for component."
-    ' (R7) an escaping LISTED path aborts the collection before anything is classified or deleted (C07.R3).')
+    ' (R7) an escaping LISTED path aborts the collection before anything is classified or deleted (C07.R3).'
+    " R2 decides a RE-IMPLEMENTED containment test (no commonpath: path components, PurePath, a predicate helper) by scenario - nothing is run: the sanitiser is walked from the point where root and candidate are both canonical with 14 (root, candidate) pairs in the store; inside candidates must reach the return, siblings sharing the prefix, parents, '/', unrelated and case-different paths must end in ValueError. (R8) the backend-kind dispatch of _get_arrow_path is exhaustive: a concrete StorageBackend class that is built somewhere in the package and is neither the local nor the S3 backend (nor derived from one) must be tested for by the dispatch (or by what it calls), else tables opened through it resolve data-file paths with the unchecked unknown-backend default."
+)
 NOT_DECIDED = "behaviour of realpath on symlink arrangements at run time; TOCTOU between check and use"
 
 SANITISERS = {"_resolve_path", "_get_arrow_path", "_real_base_path"}
